@@ -1,8 +1,9 @@
 (** C12 — a bsdiff series applied to the old file yields the new file.
     Only statements, [exact], and [Print Assumptions]; models in Bsdiff/Scan.v, Patch.v, Lru.v,
-    proofs in Bsdiff/ScanProofs.v, RoundtripProofs.v, LruProofs.v. *)
+    PatchIO.v, proofs in Bsdiff/ScanProofs.v, RoundtripProofs.v, LruProofs.v, PatchIOProofs.v,
+    SuffixProofs.v, InstanceProofs.v. *)
 From Wharf Require Import Base.Prelude Bsdiff.Scan Bsdiff.ScanProofs Bsdiff.Patch Bsdiff.RoundtripProofs Bsdiff.Lru Bsdiff.LruProofs
-  Bsdiff.Suffix Bsdiff.SuffixProofs Bsdiff.InstanceProofs Exec.C12.
+  Bsdiff.Suffix Bsdiff.SuffixProofs Bsdiff.InstanceProofs Bsdiff.PatchIO Bsdiff.PatchIOProofs Exec.C12.
 Local Open Scope Z_scope.
 
 (** For every old and new byte string, every partition setting, every scan block size and
@@ -135,6 +136,19 @@ Theorem lru_never_full :
 Proof. exact lru_never_full_lemma. Qed.
 Print Assumptions lru_never_full.
 
+(** The patcher does not depend on how reads of the old file are cached: [Apply] modelled at the
+    level of the seeks and reads it issues (Seek(OldOffset), then CopyBuffer through LimitReader
+    and AdderReader with a copy buffer of [bufSize] bytes), reading old through lrufile over
+    simplelru with ANY chunk size, number of entries and buffer size, never panics and returns
+    exactly what the cache-free definition [bspatch] returns - the same bytes, or an error in
+    exactly the same cases. *)
+Theorem patch_through_cache :
+  forall (chunkSize : Z) (entries : nat) (bufSize : Z) (old : list byte) (cs : list ctrl) (newSize : Z),
+    0 < chunkSize -> (0 < entries)%nat -> 0 < bufSize ->
+    bspatch_lru chunkSize entries bufSize old cs newSize = Some (bspatch old cs newSize).
+Proof. exact bspatch_lru_spec. Qed.
+Print Assumptions patch_through_cache.
+
 (** non-vacuity: the constant oracle is in range, and on a concrete pair the theorem's objects compute *)
 Example bsdiff_roundtrip_example :
   bsdiff_do 131072 const_search 3 [1;2;3;4;5;6]%N [9;1;2]%N = Ok ([([], [9]%N, 0, false); ([0]%N, [], -1, false); ([], [2]%N, 0, false)] ++ [ctrl_eof]) /\
@@ -144,4 +158,9 @@ Proof. split; vm_compute; reflexivity. Qed.
 Example lru_example :
   run_lru 2 1 [1;2;3;4;5]%N [ORead 3; OSeek (-1) 2; ORead 4; OSeek 9 0; ORead 1]
   = Some ([RRead [1;2;3]%N 0; RSeek 4 0; RRead [5]%N 1; RSeek 0 2; RRead [1]%N 0], [0; 2; 4; 0]).
+Proof. vm_compute. reflexivity. Qed.
+
+Example patch_through_cache_example :
+  bspatch_lru 2 1 3 [1;2;3;4;5;6]%N [([1;1;1;1;1]%N, [9]%N, -5, false); ([0;0]%N, [], 0, false); ctrl_eof] 8
+  = Some (Some [2;3;4;5;6;9;1;2]%N).
 Proof. vm_compute. reflexivity. Qed.
